@@ -2,6 +2,37 @@
 
 use std::sync::atomic::{AtomicPtr, Ordering};
 
+/// Verification hooks (compiled only with `--cfg blue_verif`): seeded yields between the steps of
+/// a prepend, to widen the interleavings a stress run reaches.
+#[cfg(blue_verif)]
+pub mod verif {
+    use std::sync::atomic::{AtomicU64, Ordering};
+
+    static YIELD_SEED: AtomicU64 = AtomicU64::new(0);
+    static COUNTER: AtomicU64 = AtomicU64::new(1);
+
+    /// Enable (seed != 0) or disable (0) seeded yields.
+    pub fn set_yield_seed(seed: u64) {
+        YIELD_SEED.store(seed, Ordering::SeqCst);
+    }
+
+    pub(crate) fn yield_point(label: u64) {
+        let s = YIELD_SEED.load(Ordering::Relaxed);
+        if s == 0 {
+            return;
+        }
+        let mut x = s ^ label.wrapping_mul(0x9e3779b97f4a7c15) ^ COUNTER.fetch_add(1, Ordering::Relaxed).wrapping_mul(0xbf58476d1ce4e5b9);
+        x ^= x << 13;
+        x ^= x >> 7;
+        x ^= x << 17;
+        match x % 6 {
+            0 => std::thread::sleep(std::time::Duration::from_micros(20 + x % 100)),
+            1 | 2 => std::thread::yield_now(),
+            _ => {}
+        }
+    }
+}
+
 /////////////////////////////////////////////// Node ///////////////////////////////////////////////
 
 struct Node<T> {
@@ -56,7 +87,11 @@ impl<T> List<T> {
         let node: *mut Node<T> = Box::leak(Box::new(Node::new(data)));
         loop {
             let head = self.head.load(Ordering::Acquire);
+            #[cfg(blue_verif)]
+            verif::yield_point(1);
             node_ptr::set_next(node, head);
+            #[cfg(blue_verif)]
+            verif::yield_point(2);
             if self
                 .head
                 .compare_exchange(head, node, Ordering::SeqCst, Ordering::SeqCst)
